@@ -2,6 +2,6 @@ CONSTANTS
   MaxLen = 0
   ModeLen = 0
   Families = {}
-  Dev_SuffixOnSanitizedLength = TRUE
+  Dev_SuffixOnSanitizedLength = FALSE
 INIT ObsInit
 NEXT ObsNext
